@@ -26,9 +26,26 @@ Inductive case :=
              (obs : result (list (list fl) * bool * list nat))
 | CBisect (pl : polyline Q) (idx : list nat) (obs : result (list (list fl) * bool * list nat * list nat)).
 
-Definition row_agree (mag : Q) (m : option (vec3 Q)) (o : list fl) : bool :=
+(* FEATURE-relative comparison (a polyline may sit far from the origin): points are compared after subtracting the
+   first vertex, with a tolerance relative to the spread of the vertices around it; fr = (spread, reference) *)
+Definition spread_of (vs : list (vec3 Q)) : Q * vec3 Q :=
+  match vs with
+  | [] => (0, V3 0 0 0)
+  | r :: _ => (mag_of (map (fun v => vsub QOps v r) vs), r)
+  end.
+Definition fl_shift (r : Q) (o : fl) : fl := match o with Fin q => Fin (q - r) | x => x end.
+Definition vec_close_feat (fr : Q * vec3 Q) (m : vec3 Q) (o : list fl) : bool :=
+  match o with
+  | [a; b; c] =>
+      fl_close_rel (fst fr) (vx m - vx (snd fr)) (fl_shift (vx (snd fr)) a) &&
+      fl_close_rel (fst fr) (vy m - vy (snd fr)) (fl_shift (vy (snd fr)) b) &&
+      fl_close_rel (fst fr) (vz m - vz (snd fr)) (fl_shift (vz (snd fr)) c)
+  | _ => false
+  end.
+Definition vecs_close_feat fr (m : list (vec3 Q)) (o : list (list fl)) : bool := all2 (vec_close_feat fr) m o.
+Definition row_agree (mag : Q * vec3 Q) (m : option (vec3 Q)) (o : list fl) : bool :=
   match m with
-  | Some v => vec_close_rel mag v o
+  | Some v => vec_close_feat mag v o
   | None => forallb fl_is_nan o && Nat.eqb (length o) 3
   end.
 
@@ -43,25 +60,27 @@ Definition check_case (c : case) : bool :=
   match c with
   | CLengths pl lens total centroid =>
       let mag := mag_of (pv pl) in
-      list_close_rel mag (segment_lengths QOps pl) lens &&
-      fl_close_rel mag (total_length QOps pl) total &&
+      let sp := fst (spread_of (pv pl)) in
+      list_close_rel sp (segment_lengths QOps pl) lens &&
+      fl_close_rel sp (total_length QOps pl) total &&
+      (* the centroid divides by the total length: its rounding is relative to the coordinates, not to the spread *)
       res_agree (vec_close_rel mag) (path_centroid QOps pl) centroid
   | CPointAlong pl fs obs =>
-      res_agree (vecs_close_rel (mag_of (pv pl))) (point_along_path QOps pl fs) obs
+      res_agree (vecs_close_feat (spread_of (pv pl))) (point_along_path QOps pl fs) obs
   | CSubdivSeg p1 p2 num endpoint obs =>
-      res_agree (vecs_close_rel (mag_of [p1; p2])) (subdivide_segment QOps p1 p2 num endpoint) obs
+      res_agree (vecs_close_feat (spread_of [p1; p2])) (subdivide_segment QOps p1 p2 num endpoint) obs
   | CSubdivSegs vs num obs =>
-      all2 (row_agree (mag_of vs)) (subdivide_segments QOps vs num) obs
+      all2 (row_agree (spread_of vs)) (subdivide_segments QOps vs num) obs
   | CSubdivLen exact pl max_length mask obs =>
       negb (forallb (parts_decided exact max_length) (pl_segments pl)) ||
-      res_agree (fun m o => vecs_close_rel (mag_of (pv pl)) (pv (fst m)) (fst (fst o)) &&
+      res_agree (fun m o => vecs_close_feat (spread_of (pv pl)) (pv (fst m)) (fst (fst o)) &&
                             Bool.eqb (pclosed (fst m)) (snd (fst o)) && nat_list_eqb (snd m) (snd o))
                 (subdivided_by_length QOps pl max_length mask) obs
   | CBisect pl idx obs =>
       res_agree (fun m o =>
                    match m, o with
                    | (mp, mo, mi), (ov, oc, oo, oi) =>
-                       vecs_close_rel (mag_of (pv pl)) (pv mp) ov && Bool.eqb (pclosed mp) oc &&
+                       vecs_close_feat (spread_of (pv pl)) (pv mp) ov && Bool.eqb (pclosed mp) oc &&
                        nat_list_eqb mo oo && nat_list_eqb mi oi
                    end)
                 (bisect QOps pl idx) obs
